@@ -197,16 +197,66 @@ def run_cases(cases):
     return impl, model
 
 
+def collisions(multi):
+    """row ids used by more than one asset"""
+    seen, n = set(), 0
+    for c in multi["assets"]:
+        ids = {x["row"] for x in all_rows(c)}
+        n += len(ids & seen)
+        seen |= ids
+    return n
+
+
+def judge_record(multi, res, raw):
+    """everything the two checks need from one run, without the raw sheets (which are large)"""
+    from harness import full_oracle
+    rec = {"case": multi, "err": res.get("err"), "msg": (res.get("msg") or "")[:200], "stage": res.get("stage")}
+    v13 = full_oracle.judge_c13(multi, res)
+    rec["c13"] = None if v13 is None else [[t, sorted(tg)] for t, tg in v13[:6]]
+    v19 = full_oracle.judge_c19(multi, res)
+    rec["c19"] = None if v19 is None else [[[t, sorted(tg)] for t, tg in v19[0][:6]], v19[1], v19[2]]
+    rec["corr"] = correspondence(multi, res, raw)[:6]
+    rec["corr_links"] = link_correspondence(multi, res, raw)[:6]
+    st = {"cells": 0, "nontriv13": False, "collisions": collisions(multi)}
+    if not res.get("err"):
+        st["cells"] = sum(len(s["cells"]) for s in res["sheets"])
+        d = res["computed"]
+        st["nontriv13"] = (sum(len(x["fractions"]) for x in d.values()) >= 2
+                           and sum(1 for x in d.values() for k in ("ins", "outs", "intras") if x[k]) >= 2)
+    rec["stats"] = st
+    return rec
+
+
+def judge_cases(cases):
+    impl, model = run_cases(cases)
+    return [judge_record(m, r, raw) for m, r, raw in zip(cases, impl, model)]
+
+
 def run(tier):
+    """-> {'records': [judge_record ...]} for the corpus + generated stream; cached (compact) for the two checks"""
     name = f"l5full_{tier}_{core.seed()}"
     got = l2.cache_get(name)
     if got:
         return got
     cases = gen_cases(tier)
-    impl, model = run_cases(cases)
-    res = {"cases": cases, "impl": impl, "model": model}
+    recs = []
+    step = 400
+    for i in range(0, len(cases), step):
+        recs += judge_cases(cases[i:i + step])
+    res = {"records": recs}
     l2.cache_put(name, res)
     return res
+
+
+def proofs_verdict(out, proofs, build, prop_file):
+    """core.proofs_verdict, except that violations matched by a `known:` line do not count as 'a failing input is in hand'"""
+    if proofs is None or proofs.ok:
+        return
+    known = [k["match"] for k in core.known_findings(out.prop) if k["match"]]
+    if any(v["found_input"] and not any(k in v["tags"] for k in known) for v in out.violations):
+        return
+    out.violation(f"proof obligations of Properties/{prop_file} no longer check:\n" + proofs.log[-2000:],
+                  {"theorems": proofs.theorems, "translator": build.translator}, tags={"proof-broken"}, found_input=False)
 
 
 # ----------------------------------------------------------------------------- comparison
@@ -307,3 +357,41 @@ def shrink(multi, pred, max_shrinks=2):
                 cur = m
     cur["shrunk_from"] = core.case_hash(multi)
     return cur
+
+
+def link_map_model(sheets):
+    out = {}
+    for s in sheets:
+        for (r, c), p in l5.final_cells(s["writes"]).items():
+            if p[0] == "link":
+                out[(s["name"], r, c)] = (p[1], p[2])
+    return out
+
+
+def link_map_ods(sheets):
+    out = {}
+    for s in sheets:
+        for r, c, _t, _v, f in s["cells"]:
+            if f:
+                m = l5.LINK_RE.match(f)
+                out[(s["name"], r, c)] = (m.group(1), int(m.group(2))) if m and m.group(2) == m.group(3) else ("?", f[:60])
+    return out
+
+
+def link_correspondence(multi, res, raw):
+    """projection of the correspondence on what C19 speaks about: which cells are hyperlinks and where they lead"""
+    kind, val = model_outcome(raw)
+    if kind == "none":
+        return []
+    if res.get("err"):
+        if res["err"] != "KeyError":
+            return []                                 # other failures of the generator are C13's business
+        return [] if (kind == "err" and val == "KeyError") else [f"implementation raised KeyError ({res.get('msg', '')[:80]}), model: {val if kind == 'err' else 'a report'}"]
+    if kind == "err":
+        return [f"model predicts {val}, the implementation wrote a report"] if val == "KeyError" else []
+    a, b = link_map_model(val), link_map_ods(res["sheets"])
+    out = []
+    for k in sorted(set(a) | set(b)):
+        if a.get(k) != b.get(k):
+            out.append(f"sheet {k[0]!r} cell ({k[1]},{k[2]}): link {b.get(k)}, model {a.get(k)}")
+    return out
